@@ -509,6 +509,18 @@ def stream_families(seed, tier):
         add("reader-stall-4096", cfg(0, sync=16, asyn=8, mx=64, perturb=i % 3),
             opened + [send("X", "a", 4400, "max"), op("pump", ep="X", ms=2500), send("X", "s", 10, "min"), op("pump", ep="X", ms=200),
                       op("pump", ms=3000), send("X", "a", 3, "min"), op("pump", ms=300)])
+    # empty notifications (length 0; also 1 byte): alone, between others, in bursts, sync / async, both directions.  They
+    # carry no identity: the ledger counts them per length and requires those accepted before a delivered notification of
+    # the same mode and period to have been handed over before it, and all of them in a stream that stays open.
+    for i in range(4 if tier == "quick" else 12):
+        d, o = ("X", "Y") if i % 2 == 0 else ("Y", "X")
+        m1, m2 = (("s", "a"), ("a", "s"), ("s", "s"), ("a", "a"))[i % 4]
+        add("empty", cfg(0, sync=16, asyn=8, mx=(64, 1024, 262144)[i % 3], perturb=i % 3),
+            opened + [send(d, m1, 1, "zero"), op("pump", ms=150), send(d, m1, 1, "min"), send(d, m1, 1, "zero"), send(d, m1, 2, "min"),
+                      op("pump", ms=150), send(d, m2, 4, "zero"), send(d, m2, 1, "max"), op("pump", ms=150),
+                      op("stall", ep=d, cls="conn", on=True), send(d, m1, 3, "zero"), send(d, m2, 2, "zero"), send(d, m1, 1, "mid"),
+                      send(d, m2, 1, "tiny"), send(d, m2, 1, "min"), op("stall", ep=d, cls="conn", on=False), op("pump", ms=300),
+                      send(o, m1, 2, "zero"), send(o, m1, 1, "min"), send(o, m2, 1, "zero"), op("pump", ms=300)])
     # size x burst: notifications larger than one write of the transport accepts (yamux splits at 16 KiB, quinn at its own
     # chunk size), several of them queued before the sender's Connection task runs (the task class is held, the burst is
     # queued, the task is released), sync / async / interleaved, both directions; every delivered byte is checked
